@@ -30,6 +30,7 @@ type FuncResult struct {
 	Decls       []string
 	HintsTried  int
 	HintsFailed int
+	HintFailIDs []string
 }
 
 // global returns the value of a package-level variable.
@@ -64,7 +65,11 @@ func (env *Env) global(o *types.Var) Val {
 	if _, done := env.st.spec[key]; !done {
 		env.st.spec[key] = Val{}
 		for _, f := range c.globalFacts(o, t) {
-			env.st.Assume(f)
+			if env.globalInit {
+				env.st.Assume(f) // collected as part of the enclosing global's facts
+			} else {
+				env.st.gfacts = append(env.st.gfacts, f)
+			}
 		}
 	}
 	return Val{T: t, GoT: o.Type()}
@@ -318,6 +323,11 @@ func (e *Engine) VerifyFunc(key string) *FuncResult {
 	r2 := e.verifyFuncPass(key, 2, proved)
 	r2.HintsTried = len(hints)
 	r2.HintsFailed = failed
+	for _, o := range hints {
+		if o.Status != "discharged" {
+			r2.HintFailIDs = append(r2.HintFailIDs, o.ID+" ["+o.Path+"] "+o.Backend)
+		}
+	}
 	return r2
 }
 
